@@ -38,6 +38,7 @@ class Loop:
     index: Optional[str] = None  # name under which a for-loop's hidden position is visible to the invariant
     modifies_fields: Optional[List[str]] = None  # heap fields the body may write (default: computed)
     unroll: bool = False  # for loops over a literal list/tuple
+    seq_name: Optional[str] = None  # name under which the iterated key sequence of a dict / set is visible to the invariant
     frozen_iter: str = ""  # non-empty: ASSUMPTION (with this justification) that the iterated list is not mutated by the body
 
 
